@@ -13,7 +13,10 @@ des/src/net/{gate,channel}.rs), with scripted modules.
 * `runActions` = the scripted callback body: the script language of harness/src/c09.rs, interpreted
                  action by action; a `panic` action aborts the rest.
 * `exec`       = `Harness::exec`: the callback, then (unless it unwound) every runnable task:
-                 freshly spawned tasks register their `Sleep`, woken tasks resume.
+                 freshly spawned tasks register their `Sleep`, woken tasks resume
+                 (`spawn_local` tasks before `tokio::spawn` tasks: the `LocalSet` is polled first).
+                 Both kinds of task live in what the shutdown drops (runtime AND `LocalSet`):
+                 `consumeShutdown` clears all of them alike.
 * `walk`       = `MessageExitingConnection::handle_with_sink`: along the gate chain, dropping the
                  message at a gate whose owner is inactive, entering the channel if there is one.
 * `moduleEvent`= `activate(); <callback>; deactivate(rt); buf_process(module, rt)`:
@@ -42,7 +45,8 @@ deriving Repr, DecidableEq
 inductive Action
   | send (dst delay id : Nat)        -- `send` / `send_in` on the gate chain to module `dst`
   | sched (delay id : Nat)           -- `schedule_in`
-  | spawn (tag sleep : Nat) (join : Bool)   -- `tokio::spawn(async { sleep(sleep).await; … })` (+ `try_join`)
+  | spawn (tag sleep : Nat) (join loc : Bool)
+      -- `tokio::spawn(async { sleep(sleep).await; … })`, with `loc` `tokio::task::spawn_local` (+ `try_join`)
   | shutdown                         -- `current().shutdown()`
   | restartIn (d : Nat)              -- `current().shutdow_and_restart_in(d)`
   | restartAt (t : Nat)              -- `current().shutdow_and_restart_at(t)`
@@ -95,6 +99,9 @@ deriving Repr, DecidableEq
 
 inductive OKind
   | msg | start | end_ | reset | task | snd | sch | log | dwn | pan
+  -- harness-only lines, never produced by the model (the driver's acceptance checker judges them):
+  -- a task was spawned; `event_start` / `event_end` of the module's pass-through processing element
+  | spw | pes | pee
 deriving Repr, DecidableEq
 
 /-- one observation line of the harness: module, kind, two arguments, `SimTime::now()` -/
@@ -109,6 +116,7 @@ deriving Repr, DecidableEq
 structure Task where
   tag : Nat
   join : Bool
+  loc : Bool           -- spawned with `spawn_local` (lives in the module's `LocalSet`)
 deriving Repr, DecidableEq
 
 inductive ErrKind
@@ -213,7 +221,7 @@ def runAction (env : Env) (inTask : Bool) (join : Bool) (es : ES) : Action → E
     ({ es with nextSerial := es.nextSerial + 1,
                obs := es.obs ++ [(⟨env.mi, .sch, some id, some m.serial, env.now⟩ : Obs)],
                buf := es.buf ++ [(KEvent.deliver env.mi m, env.now + delay)] }, false)
-  | .spawn tag sleep join => ({ es with spawned := es.spawned ++ [(sleep, Task.mk tag join)] }, false)
+  | .spawn tag sleep join loc => ({ es with spawned := es.spawned ++ [(sleep, Task.mk tag join loc)] }, false)
   | .shutdown =>
     ({ es with req := some none, obs := es.obs ++ [(⟨env.mi, .dwn, none, none, env.now⟩ : Obs)] }, false)
   | .restartIn d =>
@@ -238,15 +246,27 @@ def runActions (env : Env) (inTask join : Bool) : List Action → ES → ES × B
     let r := runAction env inTask join es a
     if r.2 then r else runActions env inTask join rest r.1
 
-/-- the woken tasks resume, in wake order; a panic ends that task only (tokio catches it) and is
-    remembered by its `try_join` handle; returns the number of such panics -/
+/-- `spawn_local` is only possible inside the `LocalSet`: the scripted body of a task that was
+    spawned with `tokio::spawn` uses `tokio::spawn` for all the tasks it spawns (`keep` = the
+    number of tasks that were spawned before this body ran) -/
+def demote (keep : Nat) (loc : Bool) (sp : List (Nat × Task)) : List (Nat × Task) :=
+  if loc then sp else sp.take keep ++ (sp.drop keep).map (fun p => (p.1, { p.2 with loc := false }))
+
+/-- the woken tasks resume, in the given order; a panic ends that task only (tokio catches it) and
+    is remembered by its `try_join` handle; returns the number of such panics -/
 def runTasks (env : Env) (prog : Prog) : List Task → ES → ES × Nat
   | [], es => (es, 0)
   | t :: rest, es =>
-    let es := { es with obs := es.obs ++ [(⟨env.mi, .task, some t.tag, none, env.now⟩ : Obs)] }
-    let r := runActions env true t.join (prog.onTask t.tag) es
-    let r' := runTasks env prog rest r.1
+    let es1 := { es with obs := es.obs ++ [(⟨env.mi, .task, some t.tag, none, env.now⟩ : Obs)] }
+    let r := runActions env true t.join (prog.onTask t.tag) es1
+    let es2 := { r.1 with spawned := demote es.spawned.length t.loc r.1.spawned }
+    let r' := runTasks env prog rest es2
     (r'.1, (if r.2 && t.join then 1 else 0) + r'.2)
+
+/-- one turn of `Harness::exec` polls the `LocalSet` first (inside the `block_on` future), then the
+    runtime's own queue: `spawn_local` tasks come before `tokio::spawn` tasks, each group in order -/
+def localsFirst {α : Type} (loc : α → Bool) (l : List α) : List α :=
+  l.filter loc ++ l.filter (fun x => !loc x)
 
 def insertSleeper : List (Nat × Task) → Nat → Task → List (Nat × Task)
   | [], d, t => [(d, t)]
@@ -273,20 +293,20 @@ def exec (env : Env) (m : ModRt) (entry : Obs) (acts : List Action) (es : ES) : 
     { mod := { m with unpolled := m.unpolled ++ r.1.spawned, shutdownReq := r.1.req, nextSerial := r.1.nextSerial },
       es := { r.1 with spawned := [] }, panicked := true }
   else
-    let t := runTasks env m.prog m.ready r.1
+    let t := runTasks env m.prog (localsFirst (·.loc) m.ready) r.1
     let es := t.1
     { mod := { m with unpolled := [], ready := [],
-                      sleepers := registerAll env.now m.sleepers (m.unpolled ++ es.spawned),
+                      sleepers := registerAll env.now m.sleepers (localsFirst (·.2.loc) (m.unpolled ++ es.spawned)),
                       joinPanics := m.joinPanics + t.2,
                       shutdownReq := es.req, nextSerial := es.nextSerial },
       es := { es with spawned := [] }, panicked := false }
 
 /-- `Harness::exec(|| {})` of `async_wakeup` -/
 def execIdle (env : Env) (m : ModRt) (es : ES) : ExecResult :=
-  let t := runTasks env m.prog m.ready es
+  let t := runTasks env m.prog (localsFirst (·.loc) m.ready) es
   let es := t.1
   { mod := { m with unpolled := [], ready := [],
-                    sleepers := registerAll env.now m.sleepers (m.unpolled ++ es.spawned),
+                    sleepers := registerAll env.now m.sleepers (localsFirst (·.2.loc) (m.unpolled ++ es.spawned)),
                     joinPanics := m.joinPanics + t.2,
                     shutdownReq := es.req, nextSerial := es.nextSerial },
     es := { es with spawned := [] }, panicked := false }
